@@ -46,7 +46,7 @@ def gen(rng):
         kinds += ["g(X)", "g(X)"]
     if "g" in preds and "h" in preds:
         # m(X): the negation of a derived atom whose two proofs use one fact in both polarities
-        kinds += ["g(X),h(X)", "g(X),\\+h(X)", "r(X)", "m(X)", "m(X)"]
+        kinds += ["g(X),h(X)", "g(X),\\+h(X)", "r(X)", "m(X)", "m(X)", "s(X)", "s(X)", "v(X)", "v(X)"]
     if "e" in preds:
         kinds += ["e(X,Y)|Y", "e(X,Y)|X-Y", "e(a,Y)|Y", "e(X,Y)|X"]
     if "h" in preds:
@@ -80,9 +80,24 @@ def render(case):
         out.append("w :- \\+g(a), h(a).")
         out.append("w :- g(a), h(b).")
         out.append("m(X) :- g(X), \\+w.")
+    first = ""
+    if kind == "s(X)":
+        # one answer with several proofs that share a subgoal which has several proofs itself
+        out.append("t :- g(c).")
+        out.append("t :- h(c).")
+        out.append("t :- g(a), h(b).")
+        out.append("s(X) :- g(X), t.")
+        out.append("s(X) :- h(X), t.")
+    if kind == "v(X)":
+        # an earlier findall in the same clause reaches the same facts in the opposite order
+        out.append("u(X) :- h(X).")
+        out.append("u(X) :- g(X).")
+        out.append("v(X) :- g(X).")
+        out.append("v(X) :- h(X).")
+        first = "findall(X0, u(X0), _), "
     goal, _, tmpl = kind.partition("|")
     tmpl = tmpl or "X"
-    out.append("q(L) :- %s(%s, (%s), L)." % (case["which"], tmpl, goal))
+    out.append("q(L) :- %s%s(%s, (%s), L)." % (first, case["which"], tmpl, goal))
     out.append("query(q(_)).")
     return "\n".join(out) + "\n"
 
@@ -102,6 +117,16 @@ def solutions(case, true):
         return [a[0] for a in sols("g") if ("h", a) in hset]
     if kind in ("g(X),\\+h(X)", "r(X)"):
         return [a[0] for a in sols("g") if ("h", a) not in hset]
+    if kind in ("s(X)", "v(X)"):
+        # Prolog: one solution per proof (clause by clause, and for every proof of the shared subgoal t)
+        nt = 1
+        if kind == "s(X)":
+            nt = int(("g", ("c",)) in hset) + int(("h", ("c",)) in hset) + \
+                int(("g", ("a",)) in hset and ("h", ("b",)) in hset)
+        out_ = []
+        for a in [x[0] for x in sols("g")] + [x[0] for x in sols("h")]:
+            out_ += [a] * nt
+        return out_
     if kind == "m(X)":
         ga, ha, hb = ("g", ("a",)) in hset, ("h", ("a",)) in hset, ("h", ("b",)) in hset
         w = (not ga and ha) or (ga and hb)
@@ -173,6 +198,14 @@ def check_one(seed):
                 kk = "q({%s})" % ",".join(sorted(items))
                 u[kk] = u.get(kk, 0.0) + float(v)
         return u
+    # Some answer has more than one proof in some world (the expected list repeats an element): ProbLog collects one
+    # element per proof of the *ground program* and merges proofs that are deterministically the same; listed finding.
+    multi = any(len(set(k[3:-2].split(","))) < len(k[3:-2].split(",")) for k in exp if len(k) > 5)
+    if multi and any(abs(float(exp.get(k, 0)) - res.get(k, 0.0)) > TOL for k in set(exp) | set(res)):
+        out["violations"].append(("multi-proof-answer", "the reported lists %s differ from the expected %s; some answer has "
+                                  "several proofs in one world" % (sorted((k, round(v, 6)) for k, v in res.items() if v > TOL),
+                                                                   sorted((k, round(float(v), 6)) for k, v in exp.items()))))
+        return out
     ur, ue = unordered(res), unordered(exp)
     differs = any(abs(float(exp.get(k, 0)) - res.get(k, 0.0)) > TOL for k in set(exp) | set(res)
                   if not any(c.isupper() for c in k.split("(", 1)[-1].replace("X-", "")))
